@@ -43,7 +43,7 @@ func runTwoIPs(name string) (rec tRec) {
 		}
 	}()
 	ping := []p2p.VerifC18Handler{{Name: "ping", Reply: []byte("pong")}}
-	a, err := p2p.VerifC18NewNodeSeeded([]string{"/ip4/127.0.0.1/tcp/0", "/ip6/::1/tcp/0"}, []byte{}, time.Second, 50*time.Millisecond, 0, nil, ping)
+	a, err := p2p.VerifC18NewNodeSeeded([]string{"/ip4/127.0.0.1/tcp/0", "/ip6/::1/tcp/0"}, []byte{}, banWindow(), 50*time.Millisecond, 0, nil, ping)
 	if err != nil {
 		rec.Err = "A: " + err.Error()
 		return rec
@@ -134,7 +134,7 @@ func runTwoIPs(name string) (rec tRec) {
 	}
 	obs.DialIn4Refused = refused(b4, a4)
 	obs.DialIn6Refused = refused(b6, a6)
-	time.Sleep(3200 * time.Millisecond)
+	time.Sleep(banWindow() + 2200*time.Millisecond)
 	obs.BannedExpiry = a.Banned()
 	return rec
 }
